@@ -308,8 +308,10 @@ def c19e(ctx):
     fn = ctx.fn(COMPACT + ':BundleDataV1.append_tile')
     seq = sorted([x for x in fn.walk() if is_call(x, 'self._fh.seek', 'self._fh.read', 'self._fh.write')], key=order_key)
     hdr_ops = []
+    cfh = Canon(fn)
     for i, x in enumerate(seq):
-        is_hdr = contains(x, lambda y: isinstance(y, ast.Name) and y.id == 'BUNDLE_V1_HEADER_STRUCT_FORMAT') or \
+        form = cfh.expr(x.args[0]) if is_call(x, 'self._fh.write') and x.args else x
+        is_hdr = contains(form, lambda y: isinstance(y, ast.Name) and y.id == 'BUNDLE_V1_HEADER_STRUCT_FORMAT') or \
             (is_call(x, 'self._fh.read') and x.args and try_const(x.args[0], ctx.repo, ctx.repo.mod(COMPACT)) == 60)
         par = getattr(x, '_parent', None)
         while par is not None and not is_hdr and not isinstance(par, ast.stmt):
